@@ -5,7 +5,7 @@
 -/
 import Rox.Lemmas.Utf8
 import Rox.Lemmas.TMLogic
-import Rox.Props.C14
+import Rox.Props.C14Base
 
 namespace Rox.Lemmas
 open Rox
